@@ -363,6 +363,7 @@ var fileDirs = []string{
 	"/usr/lib/go/src/runtime", "/home/user/go/src/github.com/foo/bar", "/root/go/pkg/mod/github.com/x/y@v1.2.3/z",
 	"C:/Users/me/go/src/app", "/path with space/src/a b", "/tmp/go-build123456/b001/_test", "/home/ü/プロジェクト", "/a",
 	"/very/deep/path/a/b/c/d/e/f/g", "", "/golang/go1.26/src/net/http", "/w", "c:/go/src/os", "/x.go/y.s",
+	"/home/user/My%20Project/cmd", "/data/100%done/%s/%d", // per cent signs: a path is data, never a format
 }
 var fileNames = []string{
 	"main.go", "proc.go", "asm_amd64.s", "cgo.c", "_testmain.go", "foo_test.go", "a b.go", "ünï.go", "x.y.z.go", "z.go", "sys_linux_amd64.s", "_cgo_export.c",
